@@ -18,7 +18,7 @@ RULE = ('legal peer streams built by the reference encoder (contact header, SESS
         'one (stream, cut pattern); non-trivial = at least one cut falls strictly inside a message; distinct = (stream digest, cut set).')
 COMPONENTS = tc.COMPONENTS
 PROBES = ('cut.inside_message', 'cut.inside_contact', 'probe.keepalive_last', 'probe.zero_length_segment', 'probe.ext_items',
-          'mode.exhaustive-window', 'mode.single', 'mode.dribble', 'mode.boundaries', 'mode.random', 'probe.victim_transfer_acked', 'probe.non_ascii_node_id')
+          'mode.exhaustive-window', 'mode.single', 'mode.dribble', 'mode.boundaries', 'mode.random', 'probe.victim_transfer_acked', 'probe.non_ascii_node_id', 'probe.reply_glued_to_next_message')
 ASSUMPTIONS = ['streams follow the legal grammar with known message types and version 4 (others belong to C17)',
                'a chunk is read by the agent in one recv when it is no larger than CHUNK_SIZE; larger chunks are read in CHUNK_SIZE pieces']
 CHUNK = 20
@@ -68,7 +68,7 @@ def gen(ch, tier):
         items.append(dict(kind='SESS_TERM', flags=0, reason=ch.choice('termr', (0, 1, 3))))
     mode = ch.choice('mode', ('single', 'exhaustive-window', 'dribble', 'boundaries', 'random', 'whole', 'single', 'exhaustive-window'))
     plan = dict(scenario='tcpcl_stream', role=role, cfg=cfg, chunk_size=ch.choice('chunk', (10240, 10240, 3, 100)),
-                items=items, victim_sends=victim_sends, mode=mode,
+                items=items, victim_sends=victim_sends, mode=mode, glue=ch.coin('glue', 1, 2),
                 p1=ch.pick('p1', 1 << 20), p2=ch.pick('p2', 1 << 20), p3=ch.pick('p3', 1 << 10))
     return plan
 
@@ -221,10 +221,13 @@ def _drive(run, plan, har):
             cuts = sorted(cuts + [edge])
     edges = [0] + cuts + [len(static)]
     answered = 0
+    carry = b''
     for (begin, end) in zip(edges, edges[1:]):
         if har.victim_closed() or har.wld.capped:
             break
-        chunk = static[begin:end]
+        # the tail of a dynamic reply may travel in the same read as what follows it
+        chunk = carry + static[begin:end]
+        carry = b''
         har.deliver(chunk)
         refdec.feed(chunk)
         har.settle()
@@ -259,6 +262,12 @@ def _drive(run, plan, har):
                     run.stats['inside'] += 1
                 else:
                     parts = [reply]
+                # what was held back from the previous reply goes first, in the same read as the start of this one
+                parts[0] = carry + parts[0]
+                carry = b''
+                if plan.get('glue') and end < len(static):
+                    carry = parts.pop()
+                    run.stats['glued'] = run.stats.get('glued', 0) + 1
                 for part in parts:
                     if har.victim_closed():
                         break
@@ -267,6 +276,12 @@ def _drive(run, plan, har):
                     har.settle()
                     if not _compare(run, har, refdec, 'reply to victim segment'):
                         return
+    if carry and not har.victim_closed():
+        har.deliver(carry)
+        refdec.feed(carry)
+        har.settle()
+        if not _compare(run, har, refdec, 'last reply to a victim segment'):
+            return
     run.stats['acked'] = acked
     har.user_pop_all()
     # delivered transfers must be intact
@@ -312,6 +327,8 @@ def describe(run):
         counters['probe.ext_items'] = 1
     if stats.get('acked'):
         counters['probe.victim_transfer_acked'] = 1
+    if stats.get('glued'):
+        counters['probe.reply_glued_to_next_message'] = 1
     if plan['cfg']['node_id'] != 'dtn://v/':
         counters['probe.non_ascii_node_id'] = 1
     static = b''.join(part for (part, _ix) in stream)
